@@ -35,6 +35,21 @@ Theorem C08_reference_interval : forall s xmin xmax ymin ymax,
   end.
 Proof. exact exact_clip_spec. Qed.
 
+(* what the tolerant judgement of float runs certifies.  A rejection passes only if no point of the input segment is inside the
+   rectangle by more than eps; an acceptance passes only if both returned endpoints are within eps of points of the input segment and
+   within eps of the rectangle (the judgement further demands orientation and coverage of the inside part, see Corr/C08.v) *)
+Theorem C08_judgement_reject : forall eps s xmin xmax ymin ymax r,
+  sandwich_ok eps s xmin xmax ymin ymax false r = true ->
+  forall t, 0 <= t <= 1 -> ~ inside_rect (xmin + eps) (xmax - eps) (ymin + eps) (ymax - eps) (seg_x s t) (seg_y s t).
+Proof. exact sandwich_reject_sound. Qed.
+Theorem C08_judgement_accept : forall eps s xmin xmax ymin ymax r,
+  sandwich_ok eps s xmin xmax ymin ymax true r = true ->
+  (exists t, 0 <= t <= 1 /\ sq (x1 r - seg_x s t) + sq (y1 r - seg_y s t) <= sq eps) /\
+  (exists t, 0 <= t <= 1 /\ sq (x2 r - seg_x s t) + sq (y2 r - seg_y s t) <= sq eps) /\
+  (xmin - eps <= x1 r /\ x1 r <= xmax + eps /\ ymin - eps <= y1 r /\ y1 r <= ymax + eps) /\
+  (xmin - eps <= x2 r /\ x2 r <= xmax + eps /\ ymin - eps <= y2 r /\ y2 r <= ymax + eps).
+Proof. exact sandwich_accept_sound. Qed.
+
 (* non-vacuity: corner-to-corner crossing needs four clips; a grazing segment; a zero-area rectangle *)
 Example C08_examples :
   let r := clip_segment 0 10 0 10 (mkst (-2) (-6) 12 15) in
@@ -50,3 +65,5 @@ Print Assumptions C08_accept_iff.
 Print Assumptions C08_no_div0.
 Print Assumptions C08_measure.
 Print Assumptions C08_reference_interval.
+Print Assumptions C08_judgement_reject.
+Print Assumptions C08_judgement_accept.
